@@ -106,6 +106,7 @@ func (c *Check) writeEvidence(wall time.Duration, violations, known int) {
 			"the Go race detector and testing/synctest (go1.26.8) are trusted",
 			"the rewriter preserves semantics when the simulator is idle — checked on this run by the repository's own test suite executed against the rewritten scratch copy (rewriter guard)",
 			"dependencies run as atomic segments: no interleaving inside a dependency call is explored",
+			"critical sections of the code under test (a held mutex or read lock) are atomic segments too: a defect that needs another caller to act between two lock operations of one critical section (recursive read-locking, lock-order inversion) is out of reach",
 			"race reports need two accesses that no other synchronisation orders: under the serialising scheduler an access pair that is always separated by a synchronising call of the standard library stays unreported (the isolation oracle is the net below)",
 			"ApplyForURL runs against a stub transport: real TCP/TLS behaviour is outside the simulator",
 		},
